@@ -8,6 +8,9 @@ from vlib import runner, sut, trees
 from vlib.runner import Check, Result, h64
 
 
+safe_repr = trees.safe_repr
+
+
 def wrap_root(spec):
     return spec if spec[0] in ('obj', 'infix', 'prefix', 'postfix') else ('obj', 'K1', [spec])
 
@@ -247,7 +250,7 @@ class C14(Check):
                 res.nontrivial.add(h64(repr(case)))
                 res.hist['nontrivial'] += 1
                 if len(res.samples) < 1:
-                    res.sample({'a': repr(oa)[:300], 'pair': how, 'parsed': parsed})
+                    res.sample({'a': safe_repr(oa)[:300], 'pair': how, 'parsed': parsed})
             if bad is not None:
                 res.mismatch(case)
         try:
@@ -261,14 +264,14 @@ class C14(Check):
         bad = check_case(mod, case)
         if bad is None:
             return None
-        return {'bucket': bad[0], 'detail': bad[1], 'a': repr(trees.build(wrap_root(case['a']), mod))[:500]}
+        return {'bucket': bad[0], 'detail': bad[1], 'a': safe_repr(trees.build(wrap_root(case['a']), mod))[:500]}
 
     def shrink(self, case, still_fails, deadline):
         return shrink_specs(case, still_fails, deadline, ('a', 'b', 'c'))
 
     def describe(self, case):
         mod = trees.get_module()
-        return {k: repr(trees.build(wrap_root(case[k]), mod))[:600] for k in ('a', 'b', 'c')}
+        return {k: safe_repr(trees.build(wrap_root(case[k]), mod))[:600] for k in ('a', 'b', 'c')}
 
 
 def spec_children(s):
